@@ -4,9 +4,12 @@ pub mod c01;
 pub mod c03;
 pub mod c06;
 pub mod c08;
+pub mod c09;
 pub mod c10;
 pub mod c11;
 pub mod c16;
+pub mod c17;
+pub mod faults;
 
 use std::fs;
 
@@ -21,9 +24,11 @@ pub fn dispatch(ctx: &Ctx) -> bool {
         "C03" => c03::run(ctx),
         "C06" => c06::run(ctx),
         "C08" => c08::run(ctx),
+        "C09" => c09::run(ctx),
         "C10" => c10::run(ctx),
         "C11" => c11::run(ctx),
         "C16" => c16::run(ctx),
+        "C17" => c17::run(ctx),
         _ => return false,
     }
     true
